@@ -14,7 +14,7 @@ except ImportError:
 
 EXTERNAL_MODELS = RUST_MODELS
 RT = "ipv8/dht/routing.py"
-PREFIXES = ["", "0", "1", "01", "110", "0101101"]
+PREFIXES = ["", "0", "1", "01", "110", "0101101", "01011010", "010110100", "1100101001011010"]   # incl. byte boundaries
 
 
 def owns_spec(prefix, node_id):
@@ -26,7 +26,7 @@ def owns_spec(prefix, node_id):
 
 contract(f"{RT}::Bucket.owns", "owns==top-bits", vars={"self": OBJ(f"{RT}::Bucket", prefix_id=EXPR("P")), "i": BYTES_N(20)},
          instances=[{"P": p} for p in PREFIXES], call="self.owns(i)", raises=[],
-         ensures=["result == owns_spec(P, i)"], must_inline=[f"{RT}::id_to_binary_string"],
+         ensures=["result == owns_spec(P, i)"],
          note="membership is the prefix relation on the 160-bit identifier")
 
 contract(f"{RT}::Bucket.generate_id", "generate_id.inside-bucket",
@@ -118,6 +118,48 @@ contract(f"{RT}::RoutingTable.add", "RoutingTable.add.split-only-on-own-path",
          bounded=BOUND,
          note="a full bucket is replaced by its two children only if it owns our own identifier; then the add is retried")
 
+
+# ---------------------------------------------------------------------------------------------------------------------
+# RoutingTable.remove_bad_nodes: removes exactly the BAD nodes and never touches the STRUCTURE of the tree (the buckets keep
+# partitioning the identifier space: an emptied bucket stays where it is)
+
+
+class TrieOf(TrieModel):
+    """a trie holding the given buckets: values()/items() enumerate them, structural updates are recorded"""
+
+    def __init__(self, buckets):
+        self.buckets = buckets
+
+    def values(self):
+        return list(self.buckets)
+
+    def items(self):
+        return [(b.prefix_id, b) for b in self.buckets]
+
+    def keys(self):
+        return [b.prefix_id for b in self.buckets]
+
+    def __iter__(self):
+        return iter([b.prefix_id for b in self.buckets])
+
+    def __len__(self):
+        return len(self.buckets)
+
+
+contract(f"{RT}::RoutingTable.remove_bad_nodes", "remove_bad_nodes.keeps-the-tree",
+         vars={"n1": NODE(), "n2": NODE(), "n3": NODE(),
+               "b0": OBJ(f"{RT}::Bucket", prefix_id=EXPR("'0'"), max_size=EXPR("2"), last_changed=REAL, nodes=EXPR("mk_nodes([n1, n2][:na])")),
+               "b1": OBJ(f"{RT}::Bucket", prefix_id=EXPR("'1'"), max_size=EXPR("2"), last_changed=REAL, nodes=EXPR("mk_nodes([n3][:nb])")),
+               "table": OBJ(f"{RT}::RoutingTable", my_node_id=BYTES_N(20), trie=EXPR("TrieOf([b0, b1])"), lock=EXPR("nullcontext()"))},
+         instances=[{"na": a, "nb": b} for a in (0, 1, 2) for b in (0, 1)],
+         requires=["implies(na == 2, n1._idv != n2._idv)"], call="table.remove_bad_nodes()", raises=[], stubs=NODE_STUBS,
+         ensures=["len(calls('trie.del')) == 0 and len(calls('trie.set')) == 0",
+                  "table.trie.buckets[0] is b0 and table.trie.buckets[1] is b1 and len(table.trie.buckets) == 2",
+                  "all((x._idv in b0.nodes) == (x.failed < 2) for x in [n1, n2][:na])",
+                  "all((x._idv in b1.nodes) == (x.failed < 2) for x in [n3][:nb])",
+                  "len(result) == len([x for x in [n1, n2][:na] + [n3][:nb] if x.failed >= 2])"],
+         bounded="two sibling buckets with 0..2 and 0..1 nodes",
+         note="purging BAD nodes removes exactly those and never deletes, replaces or adds a bucket - an empty bucket still owns its range")
 
 # ---------------------------------------------------------------------------------------------------------------------
 # BOUNDED native stand-in (sampling on the real code, not a proof) for what the verifier cannot reach: the Trie walk, sorting by XOR
